@@ -8,6 +8,12 @@ TB = ("Coq 8.16.1 kernel + vm_compute; no axioms (Print Assumptions: closed); ex
       "Rust harness ccv; hand-written Gallina models tied to /repo by the per-run correspondence; M6502/Isa.v as a datasheet transcription")
 
 CLAIMED = {
+    'C01': dict(cat='proof', technique='Coq proofs on the 6502 flag semantics and on a Gallina model of the generator\'s comparison lowering (branch sequences reach their label iff the C relation holds; negation / operand-swap tables), that model compared with the real generator on every cell each run + co-execution of generated programs on the extracted 6502 semantics against the extracted C semantics, failures minimised and attributed by feature',
+                text='Proved for all bytes and machine states: the flags CMP leaves; the unsigned branch sequences are exact; the signed ones are exact when the 8-bit subtraction does not overflow and refuted otherwise (known finding); the CMP-less comparison with 0 is exact for signed operands and for exactly the cells == != <= on unsigned ones (the other three cells are refuted: known finding); the negation and operand-swap tables preserve the relation for all integers. The tables are compared with what the real generator emits on all 96 cells (operator x signedness x negation x swap x with/without CMP) each run. The generator as a whole (4 400 lines) is NOT modelled: seeded programs of the accepted subset are compiled at -O0/-O1 and co-executed against Src/CSem.v from boundary-biased states; a failing program is minimised and attributed to a known finding only by the features of its minimised form. Partial.',
+                ref='DESIGN.md sections 6 C01 and 12'),
+    'C15': dict(cat='proof', technique='Coq proofs that the rewrites are equivalences in the C semantics (commuted + & | ^ *, swapped comparisons, x + 1 as increment) and that the generator\'s swap / negation tables preserve the relation + exhaustive table correspondence + metamorphic co-execution of both spellings on the extracted 6502 semantics',
+                text='The source-level equivalences are proved for all values in Src/CSem.v; the tables through which the generator canonicalises comparisons are proved relation-preserving and compared with the real generator on every cell; that the compiler emits equivalent code for two spellings is co-executed, not proved: every applicable rewrite site of generated programs is rewritten (commute, swap, compound assignment folded/unfolded, ++ as += 1, if/else with negated condition, for as while) and both spellings must end in the same state from the same initial states. A spelling the compiler rejects is a rejection, not a violation. Partial.',
+                ref='DESIGN.md sections 6 C15 and 12'),
     'C03': dict(cat='proof', technique='Coq proof on a Gallina model of check_branches + per-run unit correspondence with the Rust + co-execution on the extracted 6502 semantics',
                 text='Theorems (unbounded over line lists, states, flags): every conditional branch left by check_branches is within -128..127 when its label is unique; the repair skeleton exits exactly where the original branch (pair) did for every flag state; no panic when targets are defined; labels stay unique and defined; the iteration terminates. Tied to src/assemble.rs by running the Rust and the extracted model on the same thousands of boundary-sweeping inputs each run, and by recomputing displacements / co-executing original vs repaired on the implementation\'s own output.',
                 ref='DESIGN.md section 6 C03'),
@@ -39,7 +45,7 @@ CLAIMED = {
                 text='The model of cpp::process (validated to reproduce output, line table, literals and errors exactly) carries the line-table theorems; the table is compared with the real one on thousands of inputs full of line-shifting constructs every run; and planted defects of every kind (preprocessor, syntax, semantic, code generation) behind random comments/splices/skipped regions/defines/includes must be reported at their true file, line and include site.',
                 ref='DESIGN.md section 6 C06'),
     'C07': dict(cat='proof', technique='Coq theorems on the Gallina model of the conditional machine and #if evaluator + exact correspondence with cpp::process + reference spec_active on random well-nested trees',
-                text='Selection of branches for every well-nested tree and inertness of directives in unselected regions are stated on the model (general theorem in Proofs/CondFacts.v when present, pinned examples otherwise); the model is compared exactly with cpp::process each run; thousands of random trees are checked against the property\'s two-line reference. Known findings: numbers other than 0/1 in #if.',
+                text='Selection of branches for every well-nested tree and inertness of directives in unselected regions are stated on the model (general theorem in Proofs/CondFacts.v when present, pinned examples otherwise); the model is compared exactly with cpp::process each run; thousands of random trees are checked against the property\'s two-line reference. The #if evaluator (integers since fix 9bd62ad) is proved correct on printed numeric conditions (decimal round trip included).',
                 ref='DESIGN.md section 6 C07'),
     'C08': dict(cat='proof', technique='Coq theorems on the model of macro replacement (token exactness of the word-boundary replacement, positional arguments) + exact correspondence + reference token-level expander',
                 text='Token exactness is proved on the model (Proofs/MacroFacts.v when present); the model is compared exactly with cpp::process on macro-heavy inputs (up to 150 macros, nested calls and parentheses, -D, #undef); expansions are compared with a reference C-like expander. Known findings: parameter shadowing an earlier macro, -D chains.',
@@ -48,10 +54,10 @@ CLAIMED = {
                 text='Escape decoding is proved equal to C on the finite escape table and the NUL/concatenation rule by definition; the scanner theorems are in Proofs/ScanFacts.v when present; literal extraction and the bytes the real compiler stores (initialisers, tables, arguments, asm, character constants; every printable character after a backslash) are compared with the extracted models and with C\'s decoding each run.',
                 ref='DESIGN.md section 6 C09'),
     'C11': dict(cat='proof', technique='Coq theorems (optimiser never touches comment lines; scanner comment/splice theorems) + exact correspondence of the scanner + metamorphic re-layout of generated programs + co-execution under listing options',
-                text='Comment lines are proved untouched by the optimiser; scanner theorems in Proofs/ScanFacts.v when present; every generated program is re-written with comments of many shapes, blank lines, tabs, CR-LF and splices between tokens and must yield identical declarations and instructions; --insert-code / -W must leave -O0 instructions identical and optimised behaviour identical (co-execution). Known finding: // inside a block comment.',
+                text='Comment lines are proved untouched by the optimiser; scanner theorems in Proofs/ScanFacts.v when present; every generated program is re-written with comments of many shapes, blank lines, tabs, CR-LF and splices between tokens and must yield identical declarations and instructions; --insert-code / -W must leave -O0 instructions identical and optimised behaviour identical (co-execution).',
                 ref='DESIGN.md section 6 C11'),
     'C10': dict(cat='proof', technique='Coq theorems on a Gallina model of the calculator (pest Pratt algorithm + operator table + ?: encoding): all 289 operator pairs grouped as in C for all operand values, unary binds tightest, truth values, division + exact correspondence with parse_calc + reference C evaluator on random expressions',
-                text='Precedence/associativity of the calculator is proved equal to C for every pair of binary operators and all operand values (the == / relational merge is refuted and listed), with the model compared to the real calculator on thousands of random token sequences and all pairs each run; a reference C evaluator checks random expressions printed with minimal parentheses, literals in every form, and constants folded inside statements.',
+                text='Precedence/associativity of the calculator is proved equal to C for every pair of binary operators and all operand values (no exception since the precedence fix 8795ccc), with the model compared to the real calculator on thousands of random token sequences and all pairs each run; a reference C evaluator checks random expressions printed with minimal parentheses, literals in every form, and constants folded inside statements.',
                 ref='DESIGN.md section 6 C10'),
     'C17': dict(cat='proof', technique='Coq theorems on the asm() model (per-mnemonic port offsets) and on the split-port memory of the 6502 semantics + exhaustive asm() correspondence + co-execution with the split-port memory model switched on against the ordinary-variable twin',
                 text='Stores get the write port and every other mnemonic the read port for superchip / 3E / 3E+ variables, ordinary variables none: proved on the model compared exhaustively with asm(); a value written through the write port is read back through the read port and wrong-port accesses fault (memory model theorems); generated programs with random superchip variables are co-executed with faults enabled and must end like their ordinary twin.',
